@@ -96,8 +96,11 @@ def ppm_load_unit(ctx, src):
     rules = [
         FORMAT_RULE,
         # try { freadx(..); } catch (const exception&) { free(..); throw; }   (the bare rethrow is already lowered to `{ return ; }`)
-        Rule(r'try\s*\{(.*?)\}\s*catch\s*\(const exception&\)\s*\{(.*?)\{ return ; \}\s*\}',
-             r'\1 if (verif_exc) {\2 return; } C06_GHOST_AFTER_READ(new_data.raw);', count=1, regex=True),
+        # (any handler type that catches io_error -- the only exception the read stub raises; a rethrow as another type is the lowered
+        #  `{ verif_exc = EXC_x; return ; }`)
+        Rule(r'try\s*\{(.*?)\}\s*catch\s*\(const (?:std::)?(?:exception|runtime_error|io_error)&\s*\w*\)\s*\{(.*?)\{([^{}]*)return ; \}\s*\}',
+             r'\1 if (verif_exc) {\2 \3 return; } C06_GHOST_AFTER_READ(new_data.raw);', count=1, regex=True),
+        Rule(r'(?<![\w.>])free\(', 'C06_free(', count=None, regex=True),
         Rule(r'\bfreadx\(', 'C06_freadx(', count=1, regex=True),
         Rule(r'\bmalloc\(', 'C06_malloc(', count=1, regex=True),
         UNION_RULE,
@@ -125,7 +128,7 @@ def ppm_load_groups(ctx, dim_full):
                 timeout=900, stage1=240, first='minisat', engines=['minisat', 'cadical'], object_bits=12,
                 clause_note='contracts/C06_ppm.h: every index inside the allocation, Image buffer holds get_data_size() bytes, pixel (x,y) == '
                             '(v,v,v[,a]) of the file sample, consumed bytes == w*h*channels*width/8, members unchanged when the read throws',
-                replay=Replay(mode='gray_load' if fmt == 0 else 'ppm_roundtrip', extra=['in_cw=0x%X' % cw, 'in_alpha=0x%X' % alpha], **RP)))
+                replay=Replay(mode='gray_load' if fmt == 0 else 'ppm_roundtrip', extra=['in_cw=0x%X' % cw, 'in_alpha=0x%X' % alpha], leaks=True, **RP)))
     return gs
 
 # ---------------------------------------------------------------------------------------------------------------------
@@ -562,7 +565,7 @@ NOT_DECIDED = [
     'PPM / PAM header text: snprintf output, fscanf / fgets / stoull parsing, whitespace handling, max-value -> channel-width mapping',
     'byte order of 16/32/64-bit PPM samples relative to the Netpbm definition (phosg writes and reads host order; only save/load identity is shown)',
     '"an independent decoder reads the same pixels" beyond the byte-position and header-field facts (no decoder is run inside the verifier)',
-    'leaks on exception paths (unique_ptr RAII is dropped by the extraction; only the explicit free() in the PPM catch block is part of the verified text)',
+    'leaks on exception paths other than the PPM pixel read (unique_ptr RAII is dropped by the extraction); decided: a PPM/PGM/PAM file rejected at the pixel read releases the buffer allocated for it (ghosts g_alloc / g_freed)',
     'behaviour when an allocation fails (BMP loader and savers do not check malloc_unique)',
     'malformed (as opposed to truncated) files beyond the BMP info-header size: zero / negative / huge width or height, biHeight == INT32_MIN, w*h*3 overflowing int32, '
     'bfOffBits pointing anywhere (fseek result unchecked)',
